@@ -109,10 +109,24 @@ let table_of_file (hex : string) : n list option =
 let run_trie_ops (prefix : string) (v : variant) (built : trie) (ops : string list) =
   let pr' fmt = Printf.ksprintf (fun s -> pr "%s%s" prefix s) fmt in
   let cur = ref built in
-  let slots = Array.make 8 SNone in
   let bytes_memo = ref None in
   let bytes_of_built () = match !bytes_memo with
     | Some b -> b | None -> let b = save v built in bytes_memo := Some b; b in
+  let slots_ref = ref [] and bufs_ref = ref [] in
+  (* one step of the History.v state machine (the function the C13 theorem is about) *)
+  let hop name op =
+    match hstep v { h_trie = !cur; h_slots = !slots_ref; h_bufs = !bufs_ref } op with
+    | Ok (st, o) ->
+      cur := st.h_trie; slots_ref := st.h_slots; bufs_ref := st.h_bufs;
+      (match o with
+       | OLookup (Some i) -> pr' "%s %s" name (string_of_n i)
+       | OLookup None -> pr' "%s -" name
+       | OKey k -> pr' "%s %s" name (hex_of_bytes k)
+       | ONext (Some (i, k)) -> pr' "%s 1 %s %s" name (string_of_n i) (hex_of_bytes k)
+       | ONext None -> pr' "%s 0" name
+       | ORead (i, k) -> pr' "%s %s %s" name (string_of_n i) (hex_of_bytes k)
+       | OUnit -> pr' "%s ok" name)
+    | r -> pr' "%s %s" name (exc_or_fault r) in
   let show_list name r = match r with
     | Ok l -> pr' "%s%s" name (results_str l)
     | r -> pr' "%s %s" name (exc_or_fault r) in
@@ -128,46 +142,26 @@ let run_trie_ops (prefix : string) (v : variant) (built : trie) (ops : string li
       let b = save v !cur in
       let n = List.length b in
       pr' "save %d %d" n n; pr' "file %s" (hex_of_bytes b)
-    | ["L"; q] -> (match lookup !cur (bytes_of_hex q) with
-        | Ok (Some i) -> pr' "l %s" (string_of_n i) | Ok None -> pr' "l -" | r -> pr' "l %s" (exc_or_fault r))
-    | ["D"; i] -> (match decode !cur (n_of_string i) with
-        | Ok k -> pr' "d %s" (hex_of_bytes k) | r -> pr' "d %s" (exc_or_fault r))
+    | ["L"; q] -> hop "l" (HLookup (bytes_of_hex q))
+    | ["D"; i] -> hop "d" (HDecode (n_of_string i))
     | ["P"; q] -> show_list "p" (prefix_search !cur (bytes_of_hex q))
     | ["PC"; q] -> show_list "pc" (prefix_search !cur (bytes_of_hex q))
     | ["R"; q] -> show_list "r" (predictive_search !cur (bytes_of_hex q))
     | ["RC"; q] -> show_list "rc" (predictive_search !cur (bytes_of_hex q))
     | ["E"] -> show_list "e" (enumerate !cur)
     | ["EC"] -> show_list "ec" (enumerate !cur)
-    | ["USE"; "built"] -> cur := built; pr' "use ok"
-    | ["USE"; "load"] -> (match load v (bytes_of_built ()) with
-        | Ok p -> cur := p; pr' "use ok" | r -> pr' "use %s" (exc_or_fault r))
-    | "USE" :: ("mmap" | "mmapend") :: _ -> (match mmap v (bytes_of_built ()) with
-        | Ok p -> cur := p; pr' "use ok" | r -> pr' "use %s" (exc_or_fault r))
-    | ["IP"; s; q] -> slots.(int_of_string s) <- SPfx (mk_prefix (bytes_of_hex q)); pr' "ip ok"
-    | ["IR"; s; q] -> slots.(int_of_string s) <- SPred (mk_predictive (bytes_of_hex q)); pr' "ir ok"
-    | ["IE"; s] -> slots.(int_of_string s) <- SPred (mk_predictive []); pr' "ie ok"
-    | ["IDP"; s] -> slots.(int_of_string s) <- SPfx default_prefix; pr' "idp ok"
-    | ["IDR"; s] -> slots.(int_of_string s) <- SPred default_predictive; pr' "idr ok"
-    | ["N"; s] ->
-      let s = int_of_string s in
-      (match slots.(s) with
-       | SPfx it -> (match next_prefix !cur it with
-           | Ok (it', b) -> slots.(s) <- SPfx it';
-             if b then pr' "n 1 %s %s" (string_of_n it'.p_id) (hex_of_bytes (pfx_decoded it')) else pr' "n 0"
-           | r -> pr' "n %s" (exc_or_fault r))
-       | SPred it -> (match next_predictive !cur it with
-           | Ok (it', b) -> slots.(s) <- SPred it';
-             if b then pr' "n 1 %s %s" (string_of_n it'.d_id) (hex_of_bytes it'.d_dec) else pr' "n 0"
-           | r -> pr' "n %s" (exc_or_fault r))
-       | SNone -> pr' "n fault:null")
-    | ["G"; s] ->
-      (match slots.(int_of_string s) with
-       | SPfx it -> pr' "g %s %s" (string_of_n it.p_id) (hex_of_bytes (pfx_decoded it))
-       | SPred it -> pr' "g %s %s" (string_of_n it.d_id) (hex_of_bytes it.d_dec)
-       | SNone -> pr' "g fault:null")
-    | ["DI"; _; i] -> (match decode !cur (n_of_string i) with
-        | Ok k -> pr' "di %s" (hex_of_bytes k) | r -> pr' "di %s" (exc_or_fault r))
-    | ["MV"] -> Array.fill slots 0 8 SNone; pr' "mv ok"
+    | ["USE"; "built"] -> cur := built; slots_ref := []; pr' "use ok"
+    | ["USE"; "load"] -> cur := built; hop "use" HSaveLoad
+    | "USE" :: ("mmap" | "mmapend") :: _ -> cur := built; hop "use" HSaveMmap
+    | ["IP"; s; q] -> hop "ip" (HMkPrefix (n_of_string s, bytes_of_hex q))
+    | ["IR"; s; q] -> hop "ir" (HMkPred (n_of_string s, bytes_of_hex q))
+    | ["IE"; s] -> hop "ie" (HMkEnum (n_of_string s))
+    | ["IDP"; s] -> hop "idp" (HDefPrefix (n_of_string s))
+    | ["IDR"; s] -> hop "idr" (HDefPred (n_of_string s))
+    | ["N"; s] -> hop "n" (HNext (n_of_string s))
+    | ["G"; s] -> hop "g" (HRead (n_of_string s))
+    | ["DI"; b; i] -> hop "di" (HDecodeInto (n_of_string b, n_of_string i))
+    | ["MV"] -> hop "mv" HMove
     | ["TRUNC"; k] ->
       let b = firstn_int (int_of_string k) (bytes_of_built ()) in
       pr' "trunc %s" (exc_or_fault (load v b))
@@ -372,6 +366,31 @@ let case_tail (c : case) =
         | Ok k -> pr "dec %s" (hex_of_bytes k) | r -> pr "dec %s" (exc_or_fault r)) | None -> pr "error not-built %s" line)
     | _ -> pr "error unknown-op %s" line) c.body
 
+(* kind `tools`: CASE <id> tools <variant> <bin>; body: KEYFILE <hex>, DIC <hex of the file xcdat_build wrote>,
+   then ENUM | LOOKUP <hex stdin> | DECODE <hex stdin> | PREFIX <hex stdin> | PRED <n> <hex stdin>.
+   Prints what the model of each tool writes to stdout (hex). *)
+let case_tools (c : case) =
+  match c.args with
+  | [vs; bs] ->
+    let v = variant_of vs and b = bool_of bs in
+    let dic = ref [] in
+    let outr name r = match r with Ok o -> pr "%s %s" name (hex_of_bytes o) | r -> pr "%s %s" name (exc_or_fault r) in
+    List.iter (fun line -> match words line with
+      | ["DIC"; h] -> dic := bytes_of_hex h
+      | ["KEYFILE"; h] ->
+        let tbl = match table_of_file (hex_of_bytes !dic) with Some t -> t | None -> [] in
+        (match tool_build v b tbl (bytes_of_hex h) with
+         | Ok (d, _) -> pr "build %s" (if d = !dic then "same" else "diff")
+         | r -> pr "build %s" (exc_or_fault r));
+        outr "buildout" (tool_build_stdout v b tbl (bytes_of_hex h))
+      | ["ENUM"] -> outr "enum" (tool_enumerate !dic)
+      | ["LOOKUP"; h] -> outr "lookup" (tool_lookup !dic (bytes_of_hex h))
+      | ["DECODE"; h] -> outr "decode" (tool_decode !dic (bytes_of_hex h))
+      | ["PREFIX"; h] -> outr "prefix" (tool_prefix !dic (bytes_of_hex h))
+      | ["PRED"; k; h] -> outr "pred" (tool_predictive !dic (bytes_of_hex h) (n_of_string k))
+      | _ -> pr "error unknown-op %s" line) c.body
+  | _ -> pr "error bad-case-args"
+
 let intr = (try Sys.getenv "XMODEL_INTR" = "1" with Not_found -> false)
 let case_words (c : case) =
   let pc = if intr then popcount_intr else popcount in
@@ -396,7 +415,7 @@ let () =
     (try
       (match c.kind with
        | "trie" -> case_trie c | "conc" -> case_conc c | "bv" -> case_bv c | "cv" -> case_cv c
-       | "bc" -> case_bc c | "tail" -> case_tail c | "words" -> case_words c
+       | "bc" -> case_bc c | "tail" -> case_tail c | "words" -> case_words c | "tools" -> case_tools c
        | k -> pr "error unknown-kind %s" k)
     with Stack_overflow -> pr "error stack-overflow" | Failure m -> pr "error failure %s" m);
     pr "end %s" c.id; flush_out ()) (read_cases path)
